@@ -201,9 +201,9 @@ impl SlidingCounterState {
         let elapsed = now.duration_since(self.bucket_start);
 
         if elapsed >= self.bucket_duration {
-            // How many full buckets have passed?
-            let buckets_passed =
-                (elapsed.as_secs_f64() / self.bucket_duration.as_secs_f64()) as u32;
+            // How many full buckets have passed? (integer arithmetic: the f64 quotient of exactly
+            // two buckets can come out as 1.9999999999999996 and truncate to 1)
+            let buckets_passed = elapsed.as_nanos() / self.bucket_duration.as_nanos().max(1);
 
             if buckets_passed >= 2 {
                 // More than one full bucket passed - previous is now empty
